@@ -287,6 +287,7 @@ func (ex *Exec) runFrame(fr *Frame) {
 			fr.result = ex.zeroResults(fr.fn)
 		}
 	}()
+	ex.funcSteps[fr.fn] += 1 // entry block (functions of one block are encoded too)
 	for {
 		ex.curFn = fr.fn
 		for _, instr := range fr.block.Instrs {
